@@ -21,3 +21,6 @@ if [ "${regen:-0}" = 1 ]; then /venv/bin/python translate/update_baseline.py >/d
 python3 tools/gen_wire_all.py
 /venv/bin/python tools/mk_manifest.py
 git status --short | grep -v "^A \|^M " | head
+if grep -rln '^<<<<<<< \|^>>>>>>> ' --include=*.py --include=*.lean --include=*.json --include=*.md --include=*.sh . 2>/dev/null | grep -v "^./lean/.lake" | head -5 | grep -q .; then
+  echo "CONFLICT MARKERS LEFT IN:"; grep -rln '^<<<<<<< \|^>>>>>>> ' --include=*.py --include=*.lean --include=*.json --include=*.md --include=*.sh . | grep -v "^./lean/.lake" | head
+fi
